@@ -216,6 +216,9 @@ def run_property(pid, tier="quick", seed=0, only=None, verbose=False, do_bounded
     if obl_total and obl_ok != obl_total:
         ev["level"] = "other"
         cov["explanation"] = "not every obligation was discharged on this run (%d of %d): see undecided/violations" % (obl_ok, obl_total)
+    if undecided and ev["level"] == "proof":
+        ev["level"] = "other"
+        cov["explanation"] = "undecided items on this run (see coverage.undecided): not a proof-level result"
     cov["undecided"] = undecided
     cov["known_findings_reported"] = knowns
     ev["violations"] = len(violations)
